@@ -102,7 +102,11 @@ func (m *monitor) checkAssembled(n *simNode, rs *cstypes.RoundState) {
 	}
 	m.assembled[key] = true
 	re := rs.ProposalBlock.MakePartSet(types.BlockPartSizeBytes)
-	if !re.HasHeader(rs.ProposalBlockParts.Header()) {
+	if m.altEnc[key] {
+		// a Byzantine proposer's non-canonical encoding of the block: the parts reassemble to its
+		// bytes, which do not equal the canonical re-encoding (and need not)
+		e.Count("probe.alt_encoded_block_assembled")
+	} else if !re.HasHeader(rs.ProposalBlockParts.Header()) {
 		e.Fail("C10", "reassembly-mismatch", "node %d: the block reassembled from a complete part set does not split back into the part set the header committed to", n.idx)
 	}
 	if rs.Proposal != nil && rs.Proposal.BlockID.PartSetHeader.Equals(rs.ProposalBlockParts.Header()) && !bytes.Equal(rs.Proposal.BlockID.Hash, rs.ProposalBlock.Hash()) {
